@@ -828,6 +828,29 @@ class Emitter:
             ps = " ".join(self.pat(p) for p in e[1]) or "_"
             return f"(fun {ps} => {self.ex(e[2])})"
         if k == "macro":
+            if e[1] == "vec" and cfg.get("vec_macro"):
+                # vec![x; n]  ↦  List.replicate n x
+                parts, cur, d = [], [], 0
+                for tk in e[2]:
+                    if tk[1] in ("(", "[", "{"):
+                        d += 1
+                    elif tk[1] in (")", "]", "}"):
+                        d -= 1
+                    if tk[1] == ";" and d == 0:
+                        parts.append(cur)
+                        cur = []
+                    else:
+                        cur.append(tk)
+                parts.append(cur)
+                if len(parts) == 2:
+                    sub = []
+                    for part in parts:
+                        q = Parser(part + [("eof", "")])
+                        x = q.expr()
+                        if q.peek()[0] != "eof":
+                            raise Untranslatable("vec! argument")
+                        sub.append(self.ex(x))
+                    return f"(List.replicate ({sub[1]}) ({sub[0]} : {cfg['vec_macro']}))"
             raise Untranslatable("macro in value position: " + e[1])
         raise Untranslatable("expression kind " + k)
 
@@ -1008,13 +1031,50 @@ class Emitter:
             return f"let {target} := {val}\n{cont(scope)}"
         if kind == "expr":
             _, e, semi = s
+            if self.rust_text(e) in self.cfg.get("push_stmts", {}):
+                # `vec.push(x)` on a list the table names: append
+                var, val = self.cfg["push_stmts"][self.rust_text(e)]
+                return f"let {var} := {var} ++ [{val}]\n{cont(scope)}"
             if e[0] == "macro":
                 if e[1] in ("debug_assert", "debug_assert_eq", "debug_assert_ne", "trace", "debug", "println") or e[1] in self.cfg.get("ignore_macros", []):
                     return cont(scope)
                 if e[1] in ("panic", "unreachable", "todo", "unimplemented") and self.cfg.get("partial"):
                     return "none"
+                if e[1] in ("assert", "assert_eq", "assert_ne") and self.cfg.get("partial") and self.cfg.get("assert_panics"):
+                    # a failing assertion is a panic: the partial function answers `none`
+                    args, cur, d = [], [], 0
+                    for tk in e[2]:
+                        if tk[1] in ("(", "[", "{"):
+                            d += 1
+                        elif tk[1] in (")", "]", "}"):
+                            d -= 1
+                        if tk[1] == "," and d == 0:
+                            args.append(cur)
+                            cur = []
+                        else:
+                            cur.append(tk)
+                    if cur:
+                        args.append(cur)
+                    need = 1 if e[1] == "assert" else 2
+                    if len(args) < need:
+                        raise Untranslatable("assertion arguments")
+                    xs = []
+                    for part in args[:need]:
+                        q = Parser(part + [("eof", "")])
+                        x = q.expr()
+                        if q.peek()[0] != "eof":
+                            raise Untranslatable("assertion argument")
+                        xs.append(x)
+                    if e[1] == "assert":
+                        c = self.cond(xs[0])
+                    else:
+                        c = self.cond(("bin", "==" if e[1] == "assert_eq" else "!=", xs[0], xs[1]))
+                    return f"if {c} then\n{indent(cont(scope))}\nelse\n  none"
                 raise Untranslatable("macro " + e[1])
             if e[0] == "return":
+                if (self.cfg.get("partial") and e[1] is not None and e[1][0] == "call" and e[1][1][0] == "path"
+                        and e[1][1][1] == ["Err"]):
+                    return "none"       # an error return of a partial function
                 return self.ret(self.ex(e[1])) if e[1] is not None else self.ret("()")
             tail_kv = kv if (kv is not None and not rest and not semi) else None
             if e[0] == "if":
@@ -1130,6 +1190,11 @@ class Emitter:
                 return ("one", self.ex(e[3][0]), str(int(m.group(1)) // 8))
             if e[2] == "write_usized" and len(e[3]) == 2:
                 return ("one", self.ex(e[3][0]), self.ex(e[3][1]))
+            if e[2] == "write_data" and len(e[3]) == 1 and self.cfg.get("write_data"):
+                arg = e[3][0]
+                while arg[0] == "un" and arg[1] in ("&", "&mut", "*"):
+                    arg = arg[2]
+                return ("list", f"(({self.ex(arg)}).map (fun (b : UInt8) => (b.toNat, 1)))")
             if e[2] == "write_isized" and len(e[3]) == 2:
                 return ("one", f"(Int.toNat ({self.ex(e[3][0])} % 18446744073709551616))", self.ex(e[3][1]))
         if e[0] == "call" and e[1][0] == "path" and e[1][1] == ["PString", "serialize_string"] and len(e[2]) == 2:
